@@ -3,7 +3,7 @@ from kv_engine import *
 
 MODULE = "Feox.Props.C01"
 THEOREMS = ['Feox.C01.write_iff_newer', 'Feox.C01.reads_latest', 'Feox.C01.delete_effect', 'Feox.C01.error_preserves_contents', 'Feox.C01.error_preserves_view', 'Feox.Kv.doInsert_cases', 'Feox.Kv.step_acc',
-            'Feox.C01.tiers_invisible', 'Feox.C01.reads_from_any_tier', 'Feox.Kv.Tiers.step_inv', 'Feox.Kv.Tiers.read_abs', 'Feox.Kv.Tiers.reach_available', 'Feox.Kv.Tiers.reach_cached_on_disk', 'Feox.Kv.Tiers.reach_monotone']
+            'Feox.C01.tiers_invisible', 'Feox.C01.reads_from_any_tier', 'Feox.Kv.Tiers.step_inv', 'Feox.Kv.Tiers.read_abs', 'Feox.Kv.Tiers.reach_available', 'Feox.Kv.Tiers.reach_cached_on_disk', 'Feox.Kv.Tiers.reach_monotone', 'Feox.Kv.Tiers.step_obs']
 
 
 def run(ctx):
